@@ -76,6 +76,12 @@ func (m solutionMoveUnitsImpl) Execute(ctx context.Context) (bool, error) {
 			m.solution.unPlannedPlanUnits.add(m.planUnit)
 			m.solution.plannedPlanUnits.remove(m.planUnit)
 
+			if idx == 0 {
+				// No unit is un-planned below, nothing propagates: the scores
+				// still count the unit as planned.
+				m.solution.updateScores()
+			}
+
 			for i := idx - 1; i >= 0; i-- {
 				executedMove := m.moves[i]
 				unPlanned, err := executedMove.PlanUnit().UnPlan()
